@@ -124,6 +124,79 @@ func Load(db gdbi.GraphDB, name string, g *model.Graph) (gdbi.GraphInterface, er
 	return gi, nil
 }
 
+// Arrival describes how a graph got into the store: besides the final elements, earlier
+// versions of some of them (same id, other label, data or endpoints) that were overwritten
+// and elements that were written and deleted again. By C03 the stored graph is the final
+// graph whatever the arrival; queries are judged against the final graph alone, so a
+// write path that leaves stale index entries or records behind shows up as a wrong answer.
+type Arrival struct {
+	Bulk  bool             `json:"bulk,omitempty"`  // one BulkAdd stream instead of AddVertex/AddEdge calls
+	Old   []*model.Element `json:"old,omitempty"`   // earlier versions, written first
+	Gone  []*model.Element `json:"gone,omitempty"`  // written, then deleted (ids outside the graph and never an endpoint of it)
+	Twice bool             `json:"twice,omitempty"` // the final elements are written twice
+}
+
+// LoadVia creates the graph and brings g into it along the given arrival (nil = plain load).
+func LoadVia(db gdbi.GraphDB, name string, g *model.Graph, a *Arrival) (gdbi.GraphInterface, error) {
+	if a == nil {
+		return Load(db, name, g)
+	}
+	if err := db.AddGraph(name); err != nil {
+		return nil, err
+	}
+	gi, err := db.Graph(name)
+	if err != nil {
+		return nil, err
+	}
+	var seq []*model.Element
+	seq = append(seq, a.Old...)
+	seq = append(seq, a.Gone...)
+	seq = append(seq, g.V...)
+	seq = append(seq, g.E...)
+	if a.Twice {
+		seq = append(seq, g.V...)
+		seq = append(seq, g.E...)
+	}
+	if a.Bulk {
+		ch := make(chan *gdbi.GraphElement, len(seq))
+		for _, e := range seq {
+			if e.Edge {
+				ch <- &gdbi.GraphElement{Graph: name, Edge: ToGdbi(e)}
+			} else {
+				ch <- &gdbi.GraphElement{Graph: name, Vertex: ToGdbi(e)}
+			}
+		}
+		close(ch)
+		if err := gi.BulkAdd(ch); err != nil {
+			return nil, err
+		}
+	} else {
+		for _, e := range seq {
+			var err error
+			if e.Edge {
+				err = gi.AddEdge([]*gdbi.Edge{ToGdbi(e)})
+			} else {
+				err = gi.AddVertex([]*gdbi.Vertex{ToGdbi(e)})
+			}
+			if err != nil {
+				return nil, err
+			}
+		}
+	}
+	for _, e := range a.Gone {
+		var err error
+		if e.Edge {
+			err = gi.DelEdge(e.ID)
+		} else {
+			err = gi.DelVertex(e.ID)
+		}
+		if err != nil {
+			return nil, err
+		}
+	}
+	return gi, nil
+}
+
 // Canon turns any JSON-marshalable value into canonical JSON text.
 func canonJSON(b []byte) string {
 	var v interface{}
